@@ -87,3 +87,18 @@ package tree
 //@   assigns nothing
 //@   ensures [lighter_side_or_product] result == ehash(e.ntaxleft, e.hashcodeleft, e.ntaxright, e.hashcoderight)
 //@   ensures [orientation_independent] result == ehash(e.ntaxright, e.hashcoderight, e.ntaxleft, e.hashcodeleft)
+
+// ---------------------------------------------------------------------------
+// Enumerations used by callers in other packages (thin contracts)
+// ---------------------------------------------------------------------------
+
+//@ func (*tree.Tree).Tips
+//@   requires t != nil
+//@   allocates []*Node
+//@   assigns nothing
+//@   ensures [elements_non_nil] forall k int :: 0 <= k && k < len(result) ==> result[k] != nil
+//@   ensures [fresh_storage] fresh_arr(result)
+
+//@ func (*tree.Tree).Newick
+//@   requires t != nil
+//@   assigns nothing
